@@ -598,3 +598,575 @@ def case_generator_recursive_walk():
     it = walk(tree)
     head = [next(it), next(it)]
     return [head, list(it), any(x > 3 for x in walk(tree))]
+
+
+# ---- round 6: language mechanisms ---------------------------------------------------------------------------
+import contextlib as _ctx
+import dataclasses as _dc
+import enum as _enum
+import functools as _ft
+import itertools as _itl
+import operator as _op
+import typing as _ty
+from types import MethodType as _MethodType
+
+
+class _R6Stack:
+    """iterator protocol, __bool__, __len__, __contains__, __getitem__, __call__"""
+    def __init__(self, items):
+        self._items = list(items)
+
+    def __bool__(self):
+        return bool(self._items)
+
+    def __len__(self):
+        return len(self._items)
+
+    def __contains__(self, x):
+        return x in self._items
+
+    def __getitem__(self, i):
+        return self._items[i]
+
+    def __iter__(self):
+        return _R6Iter(self._items)
+
+    def __call__(self, k):
+        return self._items[0] * k
+
+    def take(self):
+        return self._items.pop()
+
+
+class _R6Iter:
+    def __init__(self, items):
+        self._rest = list(items)
+
+    def __iter__(self):
+        return self
+
+    def __next__(self):
+        if not self._rest:
+            raise StopIteration
+        return self._rest.pop(0)
+
+
+class _R6OnlyLen:
+    def __init__(self, n):
+        self.n = n
+
+    def __len__(self):
+        return self.n
+
+
+class _R6OnlyGetitem:
+    def __getitem__(self, i):
+        if i >= 3:
+            raise IndexError(i)
+        return i * i
+
+
+def case_r6_protocols():
+    s = _R6Stack([1, 2, 3])
+    out = []
+    while s:
+        out.append(s.take())
+    t = _R6Stack([4, 5])
+    return [out, bool(s), len(t), 5 in t, 9 in t, t[1], list(t), [x for x in t], t(3), bool(_R6OnlyLen(0)), bool(_R6OnlyLen(2)),
+            list(_R6OnlyGetitem()), sum(t), max(t), next(iter(t)), sorted(t, reverse=True), list(zip(t, "ab")),
+            "yes" if _R6OnlyLen(0) else "no", not t, all(t), list(map(str, t)), list(enumerate(t))]
+
+
+@_ctx.contextmanager
+def _r6_nested(log, tag):
+    log.append(("enter", tag))
+    try:
+        yield tag.upper()
+    except KeyError:
+        log.append(("swallowed", tag))
+    finally:
+        log.append(("exit", tag))
+
+
+class _R6CM:
+    def __init__(self, log):
+        self.log = log
+
+    def __enter__(self):
+        self.log.append("in")
+        return 7
+
+    def __exit__(self, et, ev, tb):
+        self.log.append(("out", et is None))
+        return et is not None and issubclass(et, ValueError)
+
+
+def case_r6_context_managers():
+    log = []
+    with _r6_nested(log, "a") as v:
+        log.append(v)
+    with _r6_nested(log, "b"):
+        raise KeyError("x")
+    try:
+        with _r6_nested(log, "c"):
+            raise ValueError("boom")
+    except ValueError:
+        log.append("propagated")
+    with _R6CM(log) as seven:
+        log.append(seven)
+    with _R6CM(log):
+        raise ValueError("eaten")
+
+    def early():
+        with _r6_nested(log, "d"):
+            return "returned"
+    log.append(early())
+    for i in range(2):
+        with _r6_nested(log, "e%d" % i):
+            if i == 0:
+                continue
+            break
+    return log
+
+
+@_dc.dataclass
+class _R6Walk:
+    root: int
+    found: list = _dc.field(init=False)
+    pending: list = _dc.field(init=False, default_factory=list)
+    scale: int = 2
+    tag: str = _dc.field(default="t", repr=False)
+
+    def __post_init__(self):
+        self.found = [self.root]
+        self.pending.append(self.root * self.scale)
+
+
+@_dc.dataclass(frozen=True)
+class _R6Names:
+    parent: str
+    children: tuple = ()
+
+    @_ft.cached_property
+    def joined(self):
+        return self.parent + ":" + ",".join(self.children)
+
+
+@_dc.dataclass(order=True)
+class _R6Ver:
+    major: int
+    minor: int = 0
+
+
+def case_r6_dataclasses():
+    w = _R6Walk(3)
+    w2 = _R6Walk(root=4, scale=5, tag="x")
+    n = _R6Names("p", ("a", "b"))
+    err = None
+    try:
+        n.parent = "q"
+    except Exception as exc:
+        err = type(exc).__name__
+    err2 = None
+    try:
+        _R6Walk(1, [9])
+    except TypeError:
+        err2 = "TypeError"
+    return [w.found, w.pending, w.scale, w.tag, w2.found, w2.pending, w2.tag, n.joined, n.joined, err, err2,
+            _R6Ver(1, 2) < _R6Ver(1, 3), _R6Ver(2) == _R6Ver(2, 0), sorted([_R6Ver(2), _R6Ver(1, 5)])[0].minor,
+            _R6Names("p") == _R6Names("p"), _dc.asdict(_R6Ver(3, 4)), _dc.replace(_R6Ver(3, 4), minor=9).minor]
+
+
+class _R6Rec(_ty.NamedTuple):
+    name: str
+    lo: int = 0
+    hi: int = 1
+
+    def span(self):
+        return self.hi - self.lo
+
+    @classmethod
+    def of(cls, text):
+        a, b = text.split("..")
+        return cls("parsed", int(a), int(b))
+
+    @property
+    def label(self):
+        return f"{self.name}[{self.lo}..{self.hi}]"
+
+    def __str__(self):
+        return "<" + self.label + ">"
+
+
+def case_r6_namedtuple_methods():
+    r = _R6Rec("g", 1, 4)
+    p = _R6Rec.of("2..9")
+    lo, hi = r[1:]
+    match r:
+        case _R6Rec(_, 1, h):
+            m1 = ("pos", h)
+        case _:
+            m1 = None
+    match p:
+        case _R6Rec(name="other"):
+            m2 = "other"
+        case _R6Rec(lo=2, hi=top):
+            m2 = ("kw", top)
+    return [r.span(), p.span(), r.label, str(r), f"{p}", r._asdict(), r._replace(hi=8).span(), lo, hi, m1, m2, r == ("g", 1, 4),
+            len(r), list(r), _R6Rec("d").hi, p.name, _R6Rec._fields, "%s" % (r,), tuple(r) + (1,)]
+
+
+class _R6Kind(_enum.Enum):
+    ALT = _enum.auto()
+    OR = _enum.auto()
+    CARD = (7, "x")
+    SAME = 1          # alias of ALT
+
+    @classmethod
+    def of(cls, lo, hi, n):
+        if (lo, hi) == (1, 1):
+            return cls.ALT
+        return cls.OR if (lo, hi) == (1, n) else cls.CARD
+
+    def label(self):
+        match self:
+            case _R6Kind.ALT:
+                return "alternative"
+            case _R6Kind.OR:
+                return "or"
+            case _:
+                return "card"
+
+    @property
+    def is_group(self):
+        return self is not _R6Kind.CARD
+
+
+class _R6Sym(str, _enum.Enum):
+    AND = "&"
+    IMPLIES = "=>"
+    REQUIRES = "=>"      # alias
+
+
+class _R6Shape(_enum.Enum):
+    SQUARE = (1, 4)
+    LINE = (2, 2)
+
+    def __init__(self, code, corners):
+        self.code = code
+        self.corners = corners
+
+    def describe(self):
+        return f"{self.name}:{self.code}:{self.corners}"
+
+
+def case_r6_enums():
+    table = {m: m.value for m in _R6Sym}
+    return [[m.name for m in _R6Kind], _R6Kind.ALT.value, _R6Kind.OR.value, _R6Kind.SAME is _R6Kind.ALT, _R6Kind.SAME.name,
+            _R6Kind.of(1, 1, 3).label(), _R6Kind.of(1, 3, 3).label(), _R6Kind.of(2, 3, 3).label(), _R6Kind.CARD.is_group,
+            _R6Kind(2).name, _R6Kind["OR"].value, len(_R6Kind), list(_R6Kind.__members__), sorted(k.name for k in table),
+            _R6Sym.REQUIRES.name, _R6Sym("=>").name, _R6Sym.AND == "&", _R6Sym.AND.value, str(_R6Sym.AND.value),
+            [s.describe() for s in _R6Shape], _R6Shape.LINE.corners, _R6Shape((1, 4)).name,
+            _R6Kind.OR in _R6Kind, isinstance(_R6Kind.OR, _R6Kind), {v.value: v.name for v in _R6Kind}[2],
+            _R6Kind._value2member_map_[(7, "x")].name, bool(_R6Kind.ALT)]
+
+
+class _R6Flag:
+    """non-data descriptor with __set_name__"""
+    def __init__(self, default=False):
+        self.default = default
+
+    def __set_name__(self, owner, name):
+        self.key = "_" + name
+        self.owner_name = owner.__name__
+
+    def __get__(self, obj, objtype=None):
+        if obj is None:
+            return self
+        return getattr(obj, self.key, self.default)
+
+
+class _R6Pos:
+    """data descriptor"""
+    def __set_name__(self, owner, name):
+        self.slot = "_p_" + name
+
+    def __get__(self, obj, objtype=None):
+        return obj.__dict__.get(self.slot, 0) if obj is not None else self
+
+    def __set__(self, obj, value):
+        if value < 0:
+            raise ValueError("negative")
+        obj.__dict__[self.slot] = value
+
+
+class _R6Query:
+    """installs an ordinary method under its own name"""
+    def __init__(self, factor):
+        self.factor = factor
+
+    def __set_name__(self, owner, name):
+        factor = self.factor
+
+        def method(self_, x=1):
+            return self_.base * factor * x
+        method.__name__ = name
+        setattr(owner, name, method)
+
+
+class _R6Host:
+    abstract = _R6Flag()
+    mandatory = _R6Flag(True)
+    level = _R6Pos()
+    double = _R6Query(2)
+    triple = _R6Query(3)
+
+    def __init__(self, base):
+        self.base = base
+        self._abstract = base > 5
+
+
+def case_r6_descriptors():
+    h, g = _R6Host(2), _R6Host(7)
+    h.level = 4
+    err = None
+    try:
+        g.level = -1
+    except ValueError:
+        err = "ValueError"
+    return [h.abstract, g.abstract, h.mandatory, h.level, g.level, err, h.double(), g.triple(2), _R6Host.double.__name__,
+            _R6Host.abstract.key, _R6Host.abstract.owner_name, _R6Host.__dict__["mandatory"].default]
+
+
+def _r6_with_listings(*specs):
+    def decorate(cls):
+        for name, attr, factor in specs:
+            def listing(self, _attr=attr, _factor=factor):
+                return [x * _factor for x in getattr(self, _attr)]
+            listing.__name__ = name
+            setattr(cls, name, listing)
+        cls.installed = tuple(n for n, _, _ in specs)
+        return cls
+    return decorate
+
+
+def _r6_identified_by(*fields):
+    key = _op.attrgetter(*fields)
+
+    def decorate(cls):
+        cls.__eq__ = lambda self, other: isinstance(other, cls) and key(self) == key(other)
+        cls.__hash__ = lambda self: hash(key(self))
+        cls.__lt__ = lambda self, other: key(self) < key(other)
+        return cls
+    return decorate
+
+
+@_r6_with_listings(("doubles", "xs", 2), ("tens", "xs", 10))
+@_r6_identified_by("name", "size")
+class _R6Model:
+    def __init__(self, name, size, xs=()):
+        self.name, self.size, self.xs = name, size, list(xs)
+
+
+def case_r6_class_decorators():
+    a, b, c = _R6Model("m", 1, [1, 2]), _R6Model("m", 1, [9]), _R6Model("m", 2)
+    return [a.doubles(), a.tens(), _R6Model.installed, a == b, a == c, a != c, hash(a) == hash(b), len({a, b, c}), a < c,
+            sorted([c, a])[0].size, a in [b], [c, a].index(b), {a: 1}[b], a.doubles.__name__]
+
+
+class _R6Base:
+    registry = {}
+
+    def __init_subclass__(cls, initial=None, kinds=(), **kw):
+        super().__init_subclass__(**kw)
+        cls._initial = staticmethod(initial) if initial is not None else None
+        for k in kinds:
+            _R6Base.registry[k] = cls
+
+    def __init__(self):
+        self.result = self._initial() if self._initial is not None else None
+
+    @classmethod
+    def of(cls, kind):
+        return _R6Base.registry[kind]()
+
+
+class _R6Count(_R6Base, initial=int, kinds=("n", "count")):
+    pass
+
+
+class _R6List(_R6Base, initial=list, kinds=("l",)):
+    def add(self, x):
+        self.result.append(x)
+        return self
+
+
+def case_r6_init_subclass():
+    c, l1, l2 = _R6Count(), _R6List(), _R6List()
+    l1.add(1)
+    return [c.result, l1.result, l2.result, type(_R6Base.of("count")).__name__, _R6Base.of("l").add(5).result,
+            sorted(_R6Base.registry), isinstance(_R6Base.of("n"), _R6Count)]
+
+
+class _R6Lazy:
+    def __init__(self, xs):
+        self.xs = xs
+        self.calls = 0
+
+    @_ft.cached_property
+    def total(self):
+        self.calls += 1
+        return sum(self.xs)
+
+    def __getattr__(self, name):
+        if name.startswith("get_"):
+            return lambda: (name[4:], self.xs)
+        raise AttributeError(name)
+
+    def __setattr__(self, name, value):
+        if name == "forbidden":
+            raise AttributeError("no")
+        object.__setattr__(self, name, value)
+
+
+def case_r6_getattr_hooks():
+    z = _R6Lazy([1, 2, 3])
+    first, second = z.total, z.total
+    err = None
+    try:
+        z.forbidden = 1
+    except AttributeError:
+        err = "AttributeError"
+    err2 = None
+    try:
+        z.unknown
+    except AttributeError:
+        err2 = "AttributeError"
+    z.other = 5
+    return [first, second, z.calls, z.get_names(), err, err2, z.other, hasattr(z, "get_x"), hasattr(z, "nothing"),
+            getattr(z, "missing", "dflt")]
+
+
+def case_r6_functional_tools():
+    def deco(f):
+        @_ft.wraps(f)
+        def inner(*a, **k):
+            return ("wrapped", f(*a, **k))
+        return inner
+
+    @deco
+    def plus(a, b=1):
+        "doc of plus"
+        return a + b
+
+    k = _R6OnlyLen(3)
+    k.v = 3
+    bound = _MethodType(lambda self, x: self.v + x, k)
+    prop_holder = type(k)
+    acc = list(_itl.accumulate([1, 2, 3], _op.mul, initial=10))
+    return [plus(1), plus.__name__, plus.__doc__, bound(4), format(3.14159, ".2f"), format(12.333, ".3g"), format(255, "x"),
+            format("s", ">3"), acc, list(_itl.accumulate([1, 2, 3])), list(_itl.compress("abcd", [1, 0, 1, 0])),
+            list(filter(_ft.partial(_op.is_not, None), [1, None, 2])), list(_itl.starmap(pow, [(2, 3), (3, 2)])),
+            list(_itl.takewhile(lambda x: x < 3, _itl.count())), list(_itl.islice(_itl.repeat("z"), 2)),
+            prop_holder.__name__, list(_itl.pairwise([1, 2, 3])), list(_itl.batched([1, 2, 3], 2)) if hasattr(_itl, "batched") else [(1, 2), (3,)],
+            _ft.reduce(_ft.partial(max), [1, 5, 2]), sorted({"b": 1, "a": 2}.items(), key=_op.itemgetter(1)),
+            _op.methodcaller("upper")("x"), "{:>4}|{!r}".format("ab", "c"), "%05.1f" % 2.5, round(2.675, 2), divmod(7, 2)]
+
+
+def case_r6_match_statements():
+    out = []
+    for v in [(1, 1), (0, 1), (1, 5), (2, 3), [1, 2, 3], {"k": 1, "z": 2}, "text", 5, None, 2.5, (1,), _R6Ver(1, 2), _R6Ver(3)]:
+        size = 5
+        match v:
+            case (1, 1):
+                r = "alt"
+            case (0, 1):
+                r = "mux"
+            case (1, hi) if hi == size:
+                r = ("or", hi)
+            case (lo, hi):
+                r = ("card", lo, hi)
+            case [first, *rest]:
+                r = ("seq", first, rest)
+            case {"k": kv, **others}:
+                r = ("map", kv, others)
+            case str() as t:
+                r = ("str", t)
+            case int() | float() as num:
+                r = ("num", num)
+            case _R6Ver(major=1, minor=mn):
+                r = ("ver1", mn)
+            case _R6Ver(mj):
+                r = ("ver", mj)
+            case None:
+                r = "none"
+            case _:
+                r = "other"
+        out.append(r)
+    return out
+
+
+@_ft.singledispatch
+def _r6_describe(x):
+    return ("other", x)
+
+
+@_r6_describe.register(int)
+def _(x):
+    return ("int", x)
+
+
+def _r6_make(tag):
+    def impl(x):
+        return (tag, len(x))
+    return impl
+
+
+for _r6_cls, _r6_tag in ((list, "list"), (str, "str")):
+    _r6_describe.register(_r6_cls)(_r6_make(_r6_tag))
+_r6_describe.register(tuple, _r6_make("tuple"))
+_R6_TABLE = {}
+for _r6_i in range(3):
+    _R6_TABLE[_r6_i] = lambda x, k=_r6_i: x + k
+if len(_R6_TABLE) > 2:
+    _R6_TABLE["big"] = True
+
+
+def case_r6_module_level_statements():
+    return [_r6_describe(3), _r6_describe([1, 2]), _r6_describe("abc"), _r6_describe((1,)), _r6_describe(2.5), _r6_describe(True),
+            _R6_TABLE[2](10), _R6_TABLE["big"], sorted(map(str, _R6_TABLE))]
+
+
+class _R6Plugin:
+    registered = []
+
+    def __init_subclass__(cls, types=(), **kw):
+        super().__init_subclass__(**kw)
+        _R6Plugin.registered.extend((t, cls) for t in types)
+
+    @staticmethod
+    def of(t):
+        for name, kind in _R6Plugin.registered:
+            if name == t:
+                return kind()
+        return _R6Fallback()
+
+    def label(self):
+        return type(self).__name__
+
+
+class _R6Xor(_R6Plugin, types=("XOR", "ALT")):
+    pass
+
+
+class _R6Or(_R6Plugin, types=("OR",)):
+    pass
+
+
+class _R6Fallback(_R6Plugin):
+    pass
+
+
+def case_r6_registry_filled_at_import():
+    return [_R6Plugin.of("XOR").label(), _R6Plugin.of("OR").label(), _R6Plugin.of("ALT").label(), _R6Plugin.of("?").label(),
+            [t for t, _ in _R6Plugin.registered]]
